@@ -32,7 +32,8 @@ CHECKS = {
             "correspondence over chains with every kind of broken hop",
             CLIENT + "Theorems: a successful cycle's root is reached from the shipped root through hops each verified under the "
             "previous and under its own root keys with strictly increasing versions; the walk's requests are consecutive and "
-            "stop at the first unavailable version; a shipped root that fails self-verification is refused before any request; "
+            "stop at the first unavailable version; conversely any valid chain the server serves is followed to its end "
+            "(C02_chain_followed); a shipped root that fails self-verification is refused before any request; "
             "timestamp, snapshot and targets verify under the final root.", NOTE + MODELLED, "5/C02"),
     "C03": ("Coq proof by invariant over arbitrary histories of cycles (induction on the history, frame lemmas per step); "
             "differential correspondence over 2-4 cycle histories with an independent oracle",
@@ -172,7 +173,10 @@ CHECKS = {
             "snapshot and timestamp; pre-repair variant refuted (F10). Tied to the code by running the real editor on "
             "generated repositories (custom data, extras at every top level, nested delegated roles, both settings), comparing "
             "old and new metadata after JSON parsing, checking delegated files byte-for-byte and loading the result with the "
-            "real client; the model is run on the abstracted views.",
+            "real client; the model is run on the abstracted views. At the level of documents: parsing a role's file into "
+            "the typed representation and serialising it again keeps every member of a covered document, unknown "
+            "top-level members and custom data included (C17_reserialise_lossless, from the schema model of C12; the two "
+            "levels without a catch-all are those of known finding F7).",
             NOTE + " The model represents verbatim-copied components by identities (hash of the JSON value).", "5/C17"),
     "C19": ("Coq proofs: server extensionality of the update cycle, the cached copy as a server, replay of a successful "
             "cycle on the copy; file-name lemmas for what the cache writes; end-to-end cache / reload runs",
